@@ -459,7 +459,8 @@ void cstl_array_slice(cstl_array_t * const a,
 
     if (ra == NULL
         || end < beg
-        || a->off + end > ra->nm) {
+        || a->off > ra->nm
+        || end > ra->nm - a->off) {
         abort();
     }
 
